@@ -209,10 +209,20 @@ def run(ck):
         if not isinstance(v, ast.Name):
             okv = False
             continue
-        for val in rd.value_exprs(r, v.id):
+        def order_kept(val, depth=0):
+            # the parameter itself, tuple(p) / list(p) / (p,), an alias of those, or a conditional
+            # expression choosing between them
             if val == 'param':
-                continue
-            if isinstance(val, str) or norm(val) not in (f'tuple({p0})', f'({p0},)', f'list({p0})'):
+                return True
+            if isinstance(val, str) or depth > 4:
+                return False
+            if norm(val) in (p0, f'tuple({p0})', f'({p0},)', f'list({p0})', '()'):
+                return True
+            if isinstance(val, ast.IfExp):
+                return order_kept(val.body, depth + 1) and order_kept(val.orelse, depth + 1)
+            return False
+        for val in rd.value_exprs(r, v.id):
+            if not order_kept(val):
                 okv = False
     ck.ob(R5, tt.fid, not bad and okv and bool(rets),
           "returns the items in the given order: args, tuple(args) or (args,)" if not bad and okv
